@@ -26,6 +26,8 @@ pub enum ErrorKind {
     ConnectionIndexOutOfBounds(FieldDef),
     UnequalPeers(usize, usize),
     InvalidTypStatement(TypClause<String>, Vec<ModuleGenericsDef>),
+    /// (Statement, Generic)
+    GenericPassedAsTypArgument(TypClause<String>, String),
     AssignedTypDoesNotConformToInterface(TypClause<String>),
 }
 #[derive(Debug, Clone, PartialEq, Eq, Default)]
@@ -137,6 +139,10 @@ impl Display for ErrorKind {
                     ident: assign.ident.clone(),
                     args: defs.clone()
                 }
+            ),
+            GenericPassedAsTypArgument(assign, generic) => write!(
+                f,
+                "Invalid type assigment '{assign}', generic '{generic}' cannot be passed on as an argument"
             ),
             AssignedTypDoesNotConformToInterface(clause) => write!(
                 f,
